@@ -446,7 +446,7 @@ class Histogram():
 
     def compute(self):
         """Yield histogram with context."""
-        yield (self._hist, self._cur_context)
+        yield (self._hist, copy.deepcopy(self._cur_context))
 
     def reset(self):
         """Reset the histogram.
